@@ -247,44 +247,7 @@ Proof.
 Qed.
 
 (** ** lazy clones as value sources of push / insert *)
-Lemma raw_action_clone_spec c vv a u idx bs t0 k :
-  cfg_wf c -> VI c vv a -> dec (szn c) bs = Some t0 -> ufuse u = None -> can_take c vv 1 ->
-  let n := tok c (unext u) in
-  match put_value c a idx n with
-  | inl xs' => exists v' u', raw_action c idx (VClone bs k) (vv, u) = Ok tt (v', u') /\
-                 VI c v' (with_xs a xs') /\ unext u' = unext u + 1 /\ ufuse u' = None /\
-                 uevents u' = EClone t0 n :: uevents u
-  | inr p => raw_action c idx (VClone bs k) (vv, u) = Panic p (vv, u)
-  end.
-Proof.
-  intros Hwf HV Hd Hf Hc n. assert (HV' := HV). destruct HV' as [HR Hbk Hbwf Hcap Hfits].
-  pose proof (rep_len _ _ _ HR) as Hlen. pose proof (rep_cap _ _ _ HR) as Hle.
-  assert (Hroom_of : full c a = false -> vlen vv < vcap vv \/ grow_ok c vv (vcap vv + 1)).
-  { intros Hfl. exact (vi_full_false c vv a HV Hfl Hc). }
-  assert (Hfx_of : forall (Hroom : vlen vv < vcap vv \/ grow_ok c vv (vcap vv + 1)), fixed_backend (vbk vv) -> vlen vv < vcap vv).
-  { intros Hroom Fx. destruct Hroom as [Hlt|Hg]; [exact Hlt|].
-    unfold grow_ok in Hg. destruct (vbk vv); cbn [fixed_backend] in Fx; contradiction. }
-  unfold put_value, raw_action. destruct idx as [i|].
-  - destruct (N.ltb_spec (N.of_nat (length (a_xs a))) i) as [Hoob|Hin].
-    + apply (insert_oob c vv u (a_xs a)); assumption.
-    + destruct (full c a) eqn:Hfl.
-      * destruct (vi_full_true c vv a HV Hfl) as [He Hfx].
-        apply (insert_full_fixed c vv u (a_xs a)); auto. lia.
-      * pose proof (Hroom_of eq_refl) as Hroom.
-        assert (Hi : (N.to_nat i <= length (a_xs a))%nat) by lia.
-        destruct (insert_clone_ok c vv u (a_xs a) bs t0 k (N.to_nat i) Hwf HR Hd Hf Hi Hroom)
-          as (v' & u' & E & HR' & Hbk' & Hn' & Hf' & He' & Hpres).
-        rewrite N2Nat.id in E. exists v', u'. split; [exact E|].
-        split; [apply (vi_after_add c vv a v'); auto|]. auto.
-  - destruct (full c a) eqn:Hfl.
-    + destruct (vi_full_true c vv a HV Hfl) as [He Hfx].
-      apply (push_full_fixed c vv u (a_xs a)); auto.
-    + pose proof (Hroom_of eq_refl) as Hroom.
-      destruct (push_clone_ok c vv u (a_xs a) bs t0 k Hwf HR Hd Hf Hroom)
-        as (v' & u' & E & HR' & Hbk' & Hn' & Hf' & He' & Hpres).
-      exists v', u'. split; [exact E|].
-      split; [apply (vi_after_add c vv a v'); auto|]. auto.
-Qed.
+
 
 Lemma exec_offer_lazy c w st a vid idx d src sidx r :
   cfg_wf c -> WRep c w st -> ufuse (wuw w) = None -> adm_vec c w vid ->
@@ -371,6 +334,12 @@ Proof.
     try (exact (sp_take_elem_out _ _ _ _ _ _ _ _ _ H)).
   - cbv zeta in H. destruct (sp_sink c _ (nx + 1) v _ k i sk') as [r'|] eqn:E; [|discriminate].
     apply IH in E. injection H as <-. exact E.
+  - destruct (Nat.eqb d0 v); [discriminate|]. destruct (get_a d0 st) as [b|]; [|discriminate].
+    destruct (sp_lazy_pushes c b (nth i (a_xs a) 0) nx (N.to_nat n0)) as [[[b1 e1] n1] o1].
+    destruct o1.
+    + destruct (sp_sink c _ n1 v a k i sk') as [r'|] eqn:E; [|discriminate].
+      apply IH in E. injection H as <-. exact E.
+    + injection H as <-. cbn [panic_res s_out]. discriminate.
   - cbv zeta in H. destruct (sp_sink c st (nx + n0) v a k i sk') as [r'|] eqn:E; [|discriminate].
     apply IH in E. injection H as <-. exact E.
 Qed.
@@ -402,8 +371,8 @@ Proof.
   set (sk := match idx with None => KPush v | Some i => KIns v i end) in *.
   destruct (sp_take c st (unext (wuw w)) src k sidx' sk) as [r0|] eqn:E0; [|discriminate]. injection Hr as <-.
   assert (Hpop : k = TPop -> sidx' = 0) by (intros ->; reflexivity).
-  assert (Hadm' : forall d, In d (sink_dsts sk) -> adm_vec c w d).
-  { unfold sk. destruct idx; cbn [sink_dsts]; intros d [<-|[]]; exact Hadm. }
+  assert (Hadm' : forall d, In d (sink_dsts sk) -> adm_many c w d (sink_count sk d)).
+  { unfold sk. destruct idx; cbn [sink_dsts sink_count]; intros d [<-|[]]; rewrite Nat.eqb_refl; apply adm_vec_many1; exact Hadm. }
   pose proof (exec_take c w st Erased src k sidx' sk r0 Hwf HW Hfuse Hpop Hadm' E0) as Hm.
   assert (Eopen : temp_open c src k sidx = temp_open c src k sidx').
   { unfold sidx', temp_open. destruct k; reflexivity. }
